@@ -41,7 +41,7 @@ def run_obligations(obs, tier, seed, jobs=None):
     results = [None] * len(obs)
     # the thorough tier is sized by total wall time: obligations not started within the property-level deadline are reported
     # inconclusive (never counted as discharged); SYMX_THOROUGH_DEADLINE_S=0 disables the deadline for an open-ended run
-    deadline = float(os.environ.get('SYMX_THOROUGH_DEADLINE_S', '1500')) if tier == 'thorough' else 0.0
+    deadline = float(os.environ.get('SYMX_THOROUGH_DEADLINE_S', '900')) if tier == 'thorough' else 0.0
     t_start = time.time()
     while pending or running:
         if deadline and pending and time.time() - t_start > deadline:
@@ -60,7 +60,7 @@ def run_obligations(obs, tier, seed, jobs=None):
         time.sleep(0.02)
         for i in list(running):
             p, pc, t0, ob = running[i]
-            hard = ob.hard_timeout_s if tier == 'quick' else max(ob.hard_timeout_s, getattr(ob, 'hard_timeout_thorough_s', float(os.environ.get('SYMX_THOROUGH_HARD_S', '1500'))))
+            hard = ob.hard_timeout_s if tier == 'quick' else max(ob.hard_timeout_s, getattr(ob, 'hard_timeout_thorough_s', float(os.environ.get('SYMX_THOROUGH_HARD_S', '1200'))))
             if pc.poll():
                 try:
                     results[i] = pc.recv()
